@@ -1,5 +1,7 @@
 """The `terms` case family: expression-tree specs, their construction on pypika, their Gallina form (coq/Terms.v),
 rendering contexts, and typed generators.  Shared by several property plugins."""
+import json
+import zlib
 from harness.lib import S, OS, Zc, B, L, O, P
 
 AOP = {"add": "OAdd", "sub": "OSub", "mul": "OMul", "div": "ODiv", "lshift": "OShl", "rshift": "OShr"}
@@ -74,7 +76,13 @@ def _build_ops(t):
         return _al(getattr(l, _PY_BOOL[t[1]])(r), t[4])
     if k == "in":
         l, r = b(t[1]), b(t[2])
-        return _al(l.notin(r) if t[3] else l.isin(r), t[4])
+        c = l.notin(r) if t[3] else l.isin(r)
+        # negate() is the method form of NOT: applied twice more it must give the same test back (one case in three, chosen
+        # by a hash of the spec so that a replay makes the same choice)
+        # (an optional sixth element of the spec forces the choice: corpus witnesses)
+        if (t[5] if len(t) > 5 else zlib.crc32(json.dumps(t, sort_keys=True, default=str).encode()) % 3 == 0):
+            c = c.negate().negate()
+        return _al(c, t[4])
     if k == "between":
         return _al(b(t[1]).between(b(t[2]), b(t[3])), t[4])
     if k == "bitand":
